@@ -2,6 +2,8 @@ import SpoxModel.Lemmas.Tensor
 import SpoxModel.Lemmas.Attr
 import SpoxModel.Lemmas.Float
 import SpoxModel.Model.Embed
+import SpoxModel.Model.AttrSite
+import SpoxModel.Generated.AttrSites
 /-!
 # C10 — constants and attributes are embedded exactly and captured at the call
 
@@ -751,5 +753,85 @@ theorem captured_at_call_ast (e : Entry) (he : e ∈ Generated.CaptureTable.tabl
 /-- Non-vacuity: a real mutation history against a copied array and a frozen list of Vars. -/
 example : observe (mutate ⟨fun _ => [1, 2, 3], fun _ => []⟩ [.setFlat 0 [9], .setFlat 0 []])
     (capture .copy ⟨fun _ => [1, 2, 3], fun _ => []⟩ (.flat 0)) = [[1, 2, 3]] := by decide
+
+/-! ## Part 6 (round 6): every attribute argument of every shipped constructor; iterables that come once -/
+section Sites
+open AttrSite
+
+/-- A single complete pass stores exactly the items of the caller's iterable — whether it can be iterated again
+    (list, tuple, array, range, dict view) or hands its items out once (generator, iterator, map, zip). -/
+theorem single_pass_exact {α : Type} (s : Src α) : stored [.full] s = s.items := rfl
+
+/-- Why lists never show the fault: over a re-iterable source any number of earlier passes is harmless. -/
+theorem reiterable_immune {α : Type} (ps : List Pass) (s : Src α) (h : s.oneShot = false) :
+    stored (ps ++ [.full]) s = s.items := by
+  induction ps generalizing s with
+  | nil => rfl
+  | cons p rest ih =>
+    have hp : (s.pass p).2 = s := by cases p <;> simp [Src.pass, h]
+    cases rest with
+    | nil =>
+      show stored [.full] (s.pass p).2 = s.items
+      rw [hp]; rfl
+    | cons q r =>
+      show stored (q :: (r ++ [.full])) (s.pass p).2 = s.items
+      rw [hp]; exact ih s h
+
+/-- The round-5 fault: a pre-pass over a one-shot iterable leaves nothing for the conversion … -/
+theorem prepass_loses_all {α : Type} (xs : List α) : stored [.full, .full] (⟨xs, true⟩ : Src α) = [] := rfl
+
+/-- … and a probe of the first item loses that item. -/
+theorem probe_loses_first {α : Type} (x : α) (xs : List α) :
+    stored [.upto 1, .full] (⟨x :: xs, true⟩ : Src α) = xs := by
+  simp [stored, Src.pass]
+
+/-- Generated obligation (observed on every run with an instrumented iterable, all four list classes through
+    both entry points, and the variadic input field): exactly one complete pass over the caller's object;
+    and from the source text: the caller's `value` is read at most once on every path. -/
+theorem generated_single_pass :
+    (∀ r ∈ Generated.AttrSites.iterPasses, r.passes = [.full]) ∧
+    Generated.AttrSites.iterPasses.length ≥ 9 ∧
+    (∀ p ∈ Generated.AttrSites.callerLoads, p.2 ≤ 1) ∧ Generated.AttrSites.callerLoads.length ≥ 2 := by decide
+
+/-- **List attributes from any iterable.** For every list-attribute entry point of the generated table and every
+    iterable — one-shot or not — the stored tuple is exactly the items the iterable had at the call. -/
+theorem list_attr_any_iterable {α : Type} (r : IterRow) (hr : r ∈ Generated.AttrSites.iterPasses) (s : Src α) :
+    stored r.passes s = s.items := by
+  rw [generated_single_pass.1 r hr]; rfl
+
+def shapeOK (s : Shape) : Bool :=
+  (Attr.Cls.ofName? s.cls).isSome && s.sameName && (s.required → s.form == .direct) &&
+  Generated.CaptureTable.table.any (fun e => e.site == s.captureSite && e.ok)
+
+/-- **Every attribute argument of every shipped constructor** (5 × ai.onnx, 3 × ai.onnx.ml; regenerated from the
+    source on every run and cross-checked with the imported modules): it is built by one of the eleven `Attr*`
+    classes, directly or through `maybe`, from the constructor parameter of the same name under the ONNX name; a
+    required attribute is never optionalised; the capture-table row that covers it passes; no parameter is wrapped,
+    pre-iterated or read twice. -/
+theorem generated_attr_sites_ok :
+    Generated.AttrSites.irregular = [] ∧ Generated.AttrSites.multiUse = [] ∧
+    Generated.AttrSites.liveMismatches = [] ∧
+    (∀ s ∈ Generated.AttrSites.shapes, shapeOK s = true) ∧
+    Generated.AttrSites.perModule.length = 8 ∧ (∀ p ∈ Generated.AttrSites.perModule, p.2 > 0) := by decide
+
+/-- Hence the captured-at-call theorem applies to every attribute argument of every shipped constructor. -/
+theorem every_constructor_attr_captured (s : Shape) (hs : s ∈ Generated.AttrSites.shapes) :
+    ∃ e ∈ Generated.CaptureTable.table, e.site = s.captureSite ∧
+      ∀ (a : Arg) (_ : a.kind = e.kind) (h : Heap) (ms : List Mut),
+        observe (mutate h ms) (capture e.observed h a) = observe h (capture e.observed h a) := by
+  have h := generated_attr_sites_ok.2.2.2.1 s hs
+  simp only [shapeOK, Bool.and_eq_true, List.any_eq_true, beq_iff_eq] at h
+  obtain ⟨e, he, hsite, hok⟩ := h.2
+  refine ⟨e, he, hsite, fun a hk hp ms => ?_⟩
+  simp only [Entry.ok, Bool.and_eq_true] at hok
+  exact captured e.observed a (by rw [hk]; exact hok.1) hp ms
+
+/-- Non-vacuity: a generator of three items through a single pass, through a pre-pass, and a list through a pre-pass. -/
+example : stored [.full] (⟨[3, 1, 2], true⟩ : Src Nat) = [3, 1, 2] := rfl
+example : stored [.full, .full] (⟨[3, 1, 2], true⟩ : Src Nat) = [] := rfl
+example : stored [.full, .full] (⟨[3, 1, 2], false⟩ : Src Nat) = [3, 1, 2] := rfl
+example : stored [.upto 1, .full] (⟨[3, 1, 2], true⟩ : Src Nat) = [1, 2] := rfl
+
+end Sites
 
 end C10
